@@ -457,6 +457,16 @@ impl PrefixesApi {
 }
 
 fn extract_filter_kind(filter: MatchedParam) -> Result<FilterKind, String> {
+    // ASNs and communities are ASCII. Reject anything else here: the value
+    // is percent-decoded client input and inetnum's Asn::from_str slices it
+    // at a fixed byte offset, which panics inside a multi-byte character.
+    if !filter.value().is_ascii() {
+        return Err(format!(
+            "Invalid non-ASCII value '{}' for filter '{}'",
+            filter.value(),
+            filter.family().unwrap_or("")
+        ));
+    }
     let extracted_filter = match filter {
         MatchedParam::Family("as_path", v) => {
             let mut asns = Vec::new();
